@@ -105,6 +105,8 @@ type Options struct {
 	// DidGenesis, when set, is installed as the did section of the genesis; the DID model is
 	// derived from it (entries are keyed by the genesis map key, whatever the document says).
 	DidGenesis json.RawMessage
+	// TwinNode: node-local start-up options of the twin instance (the primary runs on defaults).
+	TwinNode map[string]interface{}
 	// PnftGenesis, when set, is installed as the pnft section of the genesis; the PNFT model
 	// is derived from it (owner strings as spelled in the file, valid addresses or not).
 	PnftGenesis json.RawMessage
@@ -189,7 +191,7 @@ type groupState struct {
 func New(opt Options) (*World, error) {
 	if opt.Prop == "C12" && opt.ProbeDenoms == nil {
 		// every pool identifier is also used as a query argument, existing or not
-		opt.ProbeDenoms = []string{"a", "ab", "abc", "b", "A", "a/", "a b", "a-1", " a", "a\t", "a\x00b", "\x00", "a/b", "/", "zz", ""}
+		opt.ProbeDenoms = []string{"a", "ab", "abc", "b", "A", "a/", "a b", "a-1", " a", "a\t", "b/a", "%61", "a%2Fb", "a\x00b", "\x00", "a/b", "/", "zz", ""}
 	}
 	accts := simnet.DefaultAccounts(NumAccounts)
 	var db dbm.DB = dbm.NewMemDB()
@@ -943,6 +945,9 @@ func (w *World) WriteReplay(path string, extra map[string]interface{}) error {
 	}
 	if w.Opt.PnftGenesis != nil {
 		doc["pnft_genesis"] = w.Opt.PnftGenesis
+	}
+	if len(w.Opt.TwinNode) > 0 {
+		doc["twin_node_options"] = w.Opt.TwinNode
 	}
 	for k, v := range extra {
 		doc[k] = v
